@@ -523,3 +523,49 @@ add({"name": "gz_inflate_loop", "file": "dfs/img_gzfile.cc",
                (r"(while \(zerr != Z_STREAM_END\))", r"\1 GZ_OUTER_CONTRACT", 1),
                (r"\bdo\b(\s*\{\s*stream\.next_out)", r"do GZ_INNER_CONTRACT\1", 1)],
      "dropped": ["static_asserts on buffer sizes"]})
+
+# ---- img_hfe.cc / img_hxcmfm.cc (C05/C06 image-level clause): sector lookup of the flux adapters, PicTrack -------------
+COPY256 = (r"std::copy\((\w+)(?:->|\.)data\.begin\(\), \1(?:->|\.)data\.end\(\), buf\.begin\(\)\);", r"flux_sector_copy(FLUXSEC(\1), &buf);")
+RET_BUF = (r"return buf;", "{ opt_SectorBuffer some_; some_.has = 1; some_.val = buf; return some_; }")
+add({"name": "PicTrack_track_len", "file": "dfs/img_hfe.cc", "anchor": r"unsigned long track_len\(\) const",
+     "sig": "static unsigned long PicTrack_track_len(const struct PicTrack *self)",
+     "pre": "#define track_len_ (self->track_len_)\n", "post": "#undef track_len_\n", "rules": []})
+add({"name": "HxcAdapter_read_block", "file": "dfs/img_hxcmfm.cc",
+     "anchor": r"std::optional<DFS::SectorBuffer> read_block\(unsigned long lba\) override",
+     "sig": "static opt_SectorBuffer HxcAdapter_read_block(struct FluxAdapter *self, unsigned long lba)",
+     "pre": "#define geom_ (self->geom_)\n#define side_ (self->side_)\n#define FLUXSEC(s) (&self->sectors_[si_])\n", "post": "#undef geom_\n#undef side_\n#undef FLUXSEC\n",
+     "rules": [(NULLOPT_SB[0], NULLOPT_SB[1], 2), (r"geom_\.total_sectors\(\)", "Geometry_total_sectors(&geom_)", 1),
+               (r"Track::SectorAddress addr;", "struct SectorAddress addr;", 1), (r"static_cast<unsigned char>\(", "(unsigned char)(", 3),
+               (r"for \(const Sector& sect : sectors_\)", "for (size_t si_ = 0; si_ < self->sectors_n; ++si_) ADAPTER_LOOP_CONTRACT", 1),
+               (r"sect\.address == addr", "SectorAddress_eq(&self->sectors_[si_].address, &addr)", 1),
+               (r"DFS::SectorBuffer buf;", "SectorBuffer buf;", 1), (COPY256[0], COPY256[1], 1), (RET_BUF[0], RET_BUF[1], 1)]})
+add({"name": "HfeAdapter_find_sector", "file": "dfs/img_hfe.cc",
+     "anchor": r"std::vector<Sector>::const_iterator find_sector\(const SectorAddress& want\) const",
+     "sig": "static size_t HfeAdapter_find_sector(const struct FluxAdapter *self, const struct SectorAddress *want)",
+     "rules": [(r"std::vector<Sector>::const_iterator it = sectors_\.cbegin\(\);", "size_t it = 0;", 1),
+               (r"it != sectors_\.cend\(\)", "it != self->sectors_n", 1),
+               (r"it->address == want", "SectorAddress_eq(&self->sectors_[it].address, want)", 1),
+               (r"(while \(it != self->sectors_n\))", r"\1 FIND_LOOP_CONTRACT", 1)]})
+add({"name": "HfeAdapter_read_block", "file": "dfs/img_hfe.cc",
+     "anchor": r"std::optional<DFS::SectorBuffer> read_block\(unsigned long lba\) override",
+     "sig": "static opt_SectorBuffer HfeAdapter_read_block(struct FluxAdapter *self, unsigned long lba)",
+     "pre": "#define geom_ (self->geom_)\n#define side_ (self->side_)\n#define FLUXSEC(s) (&self->sectors_[s])\n", "post": "#undef geom_\n#undef side_\n#undef FLUXSEC\n",
+     "rules": [(NULLOPT_SB[0], NULLOPT_SB[1], 2), (r"sectors_\.size\(\)", "self->sectors_n", 1),
+               (r"SectorAddress addr;", "struct SectorAddress addr;", 1),
+               (r"const auto sectors_per_side\b", "const unsigned long sectors_per_side", 1),
+               (r"static_cast<unsigned char>\(", "(unsigned char)(", ">=1"),
+               (r"std::vector<Sector>::const_iterator it = find_sector\(addr\);", "size_t it = HfeAdapter_find_sector(self, &addr);", 1),
+               (r"it != sectors_\.cend\(\)", "it != self->sectors_n", 1),
+               (r"DFS::SectorBuffer buf;", "SectorBuffer buf;", 1), (COPY256[0], COPY256[1], 1), (RET_BUF[0], RET_BUF[1], 1)]})
+
+# ---- track.cc: SectorAddress comparison operators --------------------------------------------------------------------
+SA_PRE = "#define cylinder (self->cylinder)\n#define head (self->head)\n#define record (self->record)\n"
+SA_POST = "#undef cylinder\n#undef head\n#undef record\n"
+add({"name": "SectorAddress_lt", "file": "dfs/track.cc", "anchor": r"bool SectorAddress::operator<\(const SectorAddress& a\) const",
+     "sig": "static bool SectorAddress_lt(const struct SectorAddress *self, const struct SectorAddress *a_)",
+     "rules": [(r"a\.cylinder", "A_CYL", 2), (r"a\.head", "A_HEAD", 2), (r"a\.record", "A_REC", 2),
+               (r"\bcylinder\b", "self->cylinder", 2), (r"\bhead\b", "self->head", 2), (r"\brecord\b", "self->record", 2),
+               (r"A_CYL", "a_->cylinder", 2), (r"A_HEAD", "a_->head", 2), (r"A_REC", "a_->record", 2)]})
+add({"name": "SectorAddress_eq", "file": "dfs/track.cc", "anchor": r"bool SectorAddress::operator==\(const SectorAddress& a\) const",
+     "sig": "static bool SectorAddress_eq(const struct SectorAddress *self, const struct SectorAddress *a_)",
+     "rules": [(r"\*this < a", "SectorAddress_lt(self, a_)", 1), (r"a < \*this", "SectorAddress_lt(a_, self)", 1)]})
